@@ -11,6 +11,7 @@ import (
 	_ "cuelang.org/go/internal/verif/h/c06"
 	_ "cuelang.org/go/internal/verif/h/c07"
 	_ "cuelang.org/go/internal/verif/h/c08"
+	_ "cuelang.org/go/internal/verif/h/c10"
 	_ "cuelang.org/go/internal/verif/h/c09"
 )
 
